@@ -160,10 +160,13 @@ pub fn siqs(
             pdone,
         ));
     }
+    // The `gap` atomic is only a hint for the workers: a late store by one thread
+    // can overwrite the final zero stored by another. Decide on the actual relations.
+    let gap = rels.gap(&fbase);
     if rels.len() > fbase.len() + relations::MIN_KERNEL_SIZE {
         rels.truncate(fbase.len() + relations::MIN_KERNEL_SIZE)
     }
-    if s.gap.load(Ordering::Relaxed) != 0 && rels.len() <= fbase.len() {
+    if gap != 0 && rels.len() <= fbase.len() {
         panic!("Internal error: not enough smooth numbers with selected parameters (n={n})");
     }
     let rels = rels.into_inner();
